@@ -438,8 +438,8 @@ where R: EucRing, for<'a> &'a R: EucRingOps<R> {
         let (d, s, t) = EucRing::gcdx(x, y);
 
         let a = x / &d;
-        if a.is_unit() { 
-            (d, a, R::zero())
+        if let Some(ainv) = a.inv() { // x = ad with a unit: d = a^{-1}x
+            (d, ainv, R::zero())
         } else {
             (d, s, t)
         }
